@@ -117,6 +117,16 @@ def parse_output(text):
             res.errors.append(cur_err)
             i = j
             continue
+        if ln.startswith("Error: ") and not ln.startswith("Error: The behavior") and not ln.startswith("Error: The following"):
+            j = i
+            buf = []
+            while j < n and lines[j].strip() != "" and j < i + 12:
+                buf.append(lines[j])
+                j += 1
+            cur_err = TLCError("eval", ln[7:90], [], "\n".join(buf))
+            res.errors.append(cur_err)
+            i += 1
+            continue
         m = _STATE_RE.match(ln)
         if m and cur_err is not None:
             label = m.group(2)
@@ -193,7 +203,7 @@ def run(
     with open(cfg, "w") as f:
         f.write(cfg_text)
     meta = os.path.join(workdir, "meta_" + module + "_%d" % int(time.time() * 1000))
-    cmd = ["java", "-XX:+UseParallelGC", "-Xmx" + heap]
+    cmd = ["java", "-XX:+UseParallelGC", "-Xmx" + heap, "-Xss32m"]
     if dfs:
         cmd.append("-Dtlc2.tool.queue.IStateQueue=StateDeque")
     cmd += ["-cp", JAR, "tlc2.TLC", "-workers", str(workers), "-metadir", meta,
